@@ -28,9 +28,20 @@ def bound(tier):
                 fills=3 if tier == "quick" else 6, einsum_equations=len(EQS), out_forms=["none", "fresh buffer", "first operand", "second operand"])
 
 
+import collections
+
+_RECENT = collections.deque(maxlen=10)  # the operands created most recently, with a pristine copy each
+
+
 def enc(z):
     z = np.asarray(z, dtype=complex)
-    return torch.tensor(np.stack([z.real, z.imag]), dtype=torch.double)
+    t = torch.tensor(np.stack([z.real, z.imag]), dtype=torch.double)
+    _RECENT.append((t, t.clone()))
+    return t
+
+
+def operands_intact():
+    return all(torch.equal(a, b) for a, b in _RECENT)
 
 
 def fill(shape, off, nonint=False):
@@ -66,6 +77,10 @@ class Ctx:
             got = call(thunk)
         except LibRaised as e:
             self.acc.viol(f"cplx:{fn}:raised:{e.kind}", case, observed=e.tb, expected=want)
+            return
+        if "out" not in cid and not operands_intact():
+            self.acc.viol(f"cplx:{fn}:operand-modified", case, expected="operands unchanged")
+            _RECENT.clear()
             return
         try:
             want = np.asarray(want)
@@ -126,6 +141,9 @@ def run_group(acc, group, tier, only=None):
             c.chk("imag", f"imag-s:{i}", lambda: X.imag(ex), np.asarray(x.imag))
             if x != 0:
                 c.chk("inverse", f"inv:{i}", lambda: X.inverse(ex), np.asarray(1 / x), exact=False)
+                c.chk("inverse", f"inv-again:{i}", lambda: X.inverse(ex), np.asarray(1 / x), exact=False)
+                ey1 = enc(2 - 1j)
+                c.chk("scalar_divide", f"sdiv-reuse-denominator:{i}", lambda: (X.scalar_divide(ey1, ex), X.scalar_divide(ey1, ex))[1], np.asarray((2 - 1j) / x), exact=False)
     elif group == "vectors":
         for off in offs:
             for s in shapes1:
